@@ -313,7 +313,7 @@ Ltac start_event H :=
   repeat match goal with
   | |- context [match ?k with TTry => _ | TLock => _ end] => destruct k
   | |- context [if ?b then _ else _] => let E := fresh "E" in destruct b eqn:E
-  end; prep_b;
+  end; prep_b; subst;
   try apply inv_add_try; try apply inv_add_entered.
 
 (* ---- neutral moves: the coroutine changes pc between two pcs of equal weight, the mutex is untouched ------- *)
